@@ -126,7 +126,7 @@ Definition push_afield (ot : option txn) (f : string) (i : N) (stk : list value)
   match ot with
   | Some t =>
       match alookup String.eqb f (t_arrays t) with
-      | Some arr => match nth_error arr (N.to_nat i) with Some v => OOk (v :: stk) st | None => OFail end
+      | Some arr => match nth_N arr i with Some v => OOk (v :: stk) st | None => OFail end
       | None => OUnsup
       end
   | None => OFail
@@ -175,38 +175,38 @@ Definition exec_op (cx : ctx) (o : opc) (imms : list imm) (stk : list value) (st
     | O_txn, [IName f], _ => push_field (cur_txn cx) f stk st
     | O_txna, [IName f; IInt i], _ => push_afield (cur_txn cx) f i stk st
     | O_txnas, [IName f], VI i :: r => push_afield (cur_txn cx) f i r st
-    | O_gtxn, [IInt t; IName f], _ => push_field (nth_error (c_group cx) (N.to_nat t)) f stk st
-    | O_gtxna, [IInt t; IName f; IInt i], _ => push_afield (nth_error (c_group cx) (N.to_nat t)) f i stk st
-    | O_gtxns, [IName f], VI t :: r => push_field (nth_error (c_group cx) (N.to_nat t)) f r st
-    | O_gtxnsa, [IName f; IInt i], VI t :: r => push_afield (nth_error (c_group cx) (N.to_nat t)) f i r st
-    | O_gtxnas, [IInt t; IName f], VI i :: r => push_afield (nth_error (c_group cx) (N.to_nat t)) f i r st
-    | O_gtxnsas, [IName f], VI i :: VI t :: r => push_afield (nth_error (c_group cx) (N.to_nat t)) f i r st
+    | O_gtxn, [IInt t; IName f], _ => push_field (nth_N (c_group cx) t) f stk st
+    | O_gtxna, [IInt t; IName f; IInt i], _ => push_afield (nth_N (c_group cx) t) f i stk st
+    | O_gtxns, [IName f], VI t :: r => push_field (nth_N (c_group cx) t) f r st
+    | O_gtxnsa, [IName f; IInt i], VI t :: r => push_afield (nth_N (c_group cx) t) f i r st
+    | O_gtxnas, [IInt t; IName f], VI i :: r => push_afield (nth_N (c_group cx) t) f i r st
+    | O_gtxnsas, [IName f], VI i :: VI t :: r => push_afield (nth_N (c_group cx) t) f i r st
     | (O_txnas | O_gtxns | O_gtxnsa | O_gtxnas | O_gtxnsas), _, _ => OFail
     | O_global_, [IName f], _ =>
         match alookup String.eqb f (c_globals cx) with Some v => OOk (v :: stk) st | None => OUnsup end
     | O_arg, [IInt i], _ =>
-        match nth_error (c_lsig_args cx) (N.to_nat i) with Some b => OOk (VB b :: stk) st | None => OFail end
+        match nth_N (c_lsig_args cx) i with Some b => OOk (VB b :: stk) st | None => OFail end
     | O_args, _, VI i :: r =>
-        match nth_error (c_lsig_args cx) (N.to_nat i) with Some b => OOk (VB b :: r) st | None => OFail end
+        match nth_N (c_lsig_args cx) i with Some b => OOk (VB b :: r) st | None => OFail end
     | O_args, _, _ => OFail
     | O_gload, [IInt t; IInt i], _ =>
-        match nth_error (c_group cx) (N.to_nat t) with
-        | Some tx => if (N.to_nat t <? c_gi cx)%nat then OOk (scratch_get (t_scratch tx) i :: stk) st else OFail
+        match nth_N (c_group cx) t with
+        | Some tx => if (t <? N.of_nat (c_gi cx)) then OOk (scratch_get (t_scratch tx) i :: stk) st else OFail
         | None => OFail
         end
     | O_gloads, [IInt i], VI t :: r =>
-        match nth_error (c_group cx) (N.to_nat t) with
-        | Some tx => if (N.to_nat t <? c_gi cx)%nat then OOk (scratch_get (t_scratch tx) i :: r) st else OFail
+        match nth_N (c_group cx) t with
+        | Some tx => if (t <? N.of_nat (c_gi cx)) then OOk (scratch_get (t_scratch tx) i :: r) st else OFail
         | None => OFail
         end
     | O_gaid, [IInt t], _ =>
-        match nth_error (c_group cx) (N.to_nat t) with
-        | Some tx => if (N.to_nat t <? c_gi cx)%nat then OOk (VI (t_created tx) :: stk) st else OFail
+        match nth_N (c_group cx) t with
+        | Some tx => if (t <? N.of_nat (c_gi cx)) then OOk (VI (t_created tx) :: stk) st else OFail
         | None => OFail
         end
     | O_gaids, _, VI t :: r =>
-        match nth_error (c_group cx) (N.to_nat t) with
-        | Some tx => if (N.to_nat t <? c_gi cx)%nat then OOk (VI (t_created tx) :: r) st else OFail
+        match nth_N (c_group cx) t with
+        | Some tx => if (t <? N.of_nat (c_gi cx)) then OOk (VI (t_created tx) :: r) st else OFail
         | None => OFail
         end
     (* application state *)
@@ -264,7 +264,7 @@ Definition exec_op (cx : ctx) (o : opc) (imms : list imm) (stk : list value) (st
     | O_box_create, _, VI n :: VB k :: r =>
         match alookup bytes_eqb k (s_boxes st) with
         | Some v => if blen v =? n then OOk (VI 0 :: r) st else OFail
-        | None => OOk (VI 1 :: r) (set_boxes st (aset bytes_eqb k (bzero (N.to_nat n)) (s_boxes st)) (EBoxPut k (bzero (N.to_nat n))))
+        | None => if n <=? 32768 then OOk (VI 1 :: r) (set_boxes st (aset bytes_eqb k (bzero (N.to_nat n)) (s_boxes st)) (EBoxPut k (bzero (N.to_nat n)))) else OFail
         end
     | O_box_extract, _, VI l :: VI s :: VB k :: r =>
         match alookup bytes_eqb k (s_boxes st) with
@@ -303,7 +303,7 @@ Definition exec_op (cx : ctx) (o : opc) (imms : list imm) (stk : list value) (st
         | None => OFail
         end
     | O_gitxn, [IInt t; IName f], _ =>
-        match itxn_txn st (N.to_nat t) with
+        match (if t <? 16 then itxn_txn st (N.to_nat t) else None) with
         | Some tx => match fld tx f with Some v => OOk (v :: stk) st | None => OUnsup end
         | None => OFail
         end
@@ -486,14 +486,14 @@ Definition step (cx : ctx) (p : program) (m : mach) : outcome :=
               | None => Done VFail m
               end
           | O_intc, [IInt k], _ =>
-              match nth_error (m_intc m) (N.to_nat k) with
+              match nth_N (m_intc m) k with
               | Some n => Running (with_pc_stack m pc' (VI n :: m_stack m)) | None => Done VFail m end
           | O_intc_0, _, _ => match nth_error (m_intc m) 0 with Some n => Running (with_pc_stack m pc' (VI n :: m_stack m)) | None => Done VFail m end
           | O_intc_1, _, _ => match nth_error (m_intc m) 1 with Some n => Running (with_pc_stack m pc' (VI n :: m_stack m)) | None => Done VFail m end
           | O_intc_2, _, _ => match nth_error (m_intc m) 2 with Some n => Running (with_pc_stack m pc' (VI n :: m_stack m)) | None => Done VFail m end
           | O_intc_3, _, _ => match nth_error (m_intc m) 3 with Some n => Running (with_pc_stack m pc' (VI n :: m_stack m)) | None => Done VFail m end
           | O_bytec, [IInt k], _ =>
-              match nth_error (m_bytec m) (N.to_nat k) with
+              match nth_N (m_bytec m) k with
               | Some b => Running (with_pc_stack m pc' (VB b :: m_stack m)) | None => Done VFail m end
           | O_bytec_0, _, _ => match nth_error (m_bytec m) 0 with Some b => Running (with_pc_stack m pc' (VB b :: m_stack m)) | None => Done VFail m end
           | O_bytec_1, _, _ => match nth_error (m_bytec m) 1 with Some b => Running (with_pc_stack m pc' (VB b :: m_stack m)) | None => Done VFail m end
